@@ -173,6 +173,17 @@ def run(pid, tier, seed):
         coverage["rule"] += " The types of unified nodes (symbols, labels, this, literals, type nodes) are covered by IprUnify " \
                             "behaviours and recorded histories in which earlier nodes are re-read after later requests."
         violations += u["violations"]
+        # "the type of a scope, parameter list or expression list is the product of its current elements' types in order, also
+        # after later additions": the typed sequences of IprSeq, grown one element at a time past every block of their storage
+        import p_seq
+        sq = p_seq.run("C09", tier, seed)
+        sqc = sq["coverage"]
+        for k in ("states", "transitions", "traces_validated_against_impl", "evaluations"):
+            coverage[k] += sqc[k]
+        coverage["typed_sequences"] = {"scope": sqc["exhaustive_scope"], "recorded_events": sqc["recorded_events"]}
+        coverage["rule"] += " The product types of expression lists, scopes, parameter lists and base lists are read element by " \
+                            "element after each of up to 36 (quick) / 70 (thorough) additions (IprSeq, kinds typed_sequence:*)."
+        violations += sq["violations"]
     return {"coverage": coverage, "violations": violations,
             "assumptions": ["the node table (tools/gen_nodes.py) is the oracle; it is written from the interface documentation",
                             "expr_factory::make_annotation and Lexicon::make_token are declared but not defined by the library and cannot be exercised"]}
